@@ -5,6 +5,14 @@ HERE = os.path.dirname(os.path.dirname(os.path.abspath(__file__)))
 ALL = [f"C{i:02d}" for i in range(1, 19)]
 # property -> (technique, level text, level note, design_ref)
 CHECKS = {
+ "C03": ("runtime reference-model monitor over the distribution's own public parts: log_prob vs base.log_prob(inverse image)+inverse "
+         "log-det, sample(key) vs transform(base.sample(key)), sample_and_log_prob vs sample and vs log_prob(sample), merge_transforms",
+         "Exploration: ~380 distributions (every R->R structure in both orientations over 7 bases, conditional base x (un)conditional "
+         "bijection, flow as base, nested Transformed, all five factories x orientation x cond x transformer) x 3 parameter draws x 40 "
+         "points + 24 keys; non-trivial cases have |log-det| > 1e-3.",
+         "The parts (bijection methods, base densities) are trusted here and decided by C01/C02/C05; clause (c) is gated where the round "
+         "trip itself is ill-conditioned.",
+         "DESIGN.md 4/C03"),
  "C06": ("runtime monitor through the documented extension point: tag distributions whose outputs encode exactly which key and which "
          "x/condition slice each element was computed from; decoded against NumPy broadcasting; real conditional flows compared with a "
          "Python loop of unbatched public calls",
